@@ -9,7 +9,7 @@ HOOK_COMMITS = ["a1e4d44"]
 NOT_APPLICABLE = {}
 
 # properties whose check has been reviewed and verified on the unchanged tree; only these go into MANIFEST.json
-CLAIMED = ["C01", "C02", "C04", "C06", "C07", "C08", "C11", "C12", "C13", "C14", "C16", "C18", "C19"]
+CLAIMED = ["C01", "C02", "C04", "C06", "C07", "C08", "C11", "C12", "C13", "C14", "C15", "C16", "C18", "C19"]
 
 CHECKS = {
     "C13": dict(
@@ -259,6 +259,7 @@ CHECKS = {
             dict(run="TestTransport", checks=None, shards_quick=1, shards_thorough=2, timeout=900),
             dict(run="TestArrays", build="unsafe", checks=None, shards_quick=1, shards_thorough=2, timeout=900),
             dict(run="TestGroupMetadata", checks=None, timeout=600),
+            dict(run="TestCompressedLengths", checks=None, timeout=600),
             dict(run="FuzzReadResponse", fuzz=True, tier="thorough", fuzztime_thorough="180s", timeout=500),
         ],
     ),
@@ -305,5 +306,46 @@ CHECKS = {
             dict(run="TestConnCrossTalk", checks_quick=300, checks_thorough=2000, shards_quick=2, shards_thorough=8),
             dict(run="TestTransportCrossTalk", checks_quick=300, checks_thorough=2000, shards_quick=2, shards_thorough=8),
         ],
+    ),
+    "C17": dict(
+        pkg="props/c17", level="fault_enumeration",
+        technique="fault enumeration over cut positions of well-formed responses (in-memory network delivers exactly k bytes, then EOF / RST / silence) at the Conn, Client+Transport and protocol level; model-based Reader/Writer scenarios with cuts at drawn positions",
+        level_text=("(1) every response-reading Conn operation (ApiVersions, Controller, Brokers, ReadPartitions v1/v6, ReadFirst/Last/Offset(s), Seek, ReadBatch/Batch.ReadMessage/Batch.Read/Conn.ReadMessage/Conn.Read over fetch v2/v5/v10 and logs of format 0/1/2 with every codec, "
+                    "WriteMessages/WriteCompressedMessages(At) produce v2/v3/v7, Create/DeleteTopics v0-v2, DialLeader, and the consumer-group operations through the verif-tag wrappers) x every response it waits for (incl. the implicit ApiVersions / ListOffsets exchanges) x cut position k; "
+                    "(2) 16 kafka.Client calls through kafka.Transport x every registered version of their API x every response the call waits for (connection handshake, coordinator lookup, request) x k, and every registered API x version (158) with a reference-encoded generated response through protocol.Conn.RoundTrip and Transport.RoundTrip x k, plus the raw SASL token exchange; "
+                    "(3) Reader (C02 delivery oracle) and Writer (C01 duplicate rule, C07 order rule, no-loss) runs whose n-th fetch/produce response is cut inside the size prefix, the header, a record batch or at a batch boundary. "
+                    "Thorough tier: all k in [0,len] for frames <= 4 KiB (counter exhaustive_frames); larger frames: first/last 512 bytes, every field and batch boundary +-1, 256 drawn positions. "
+                    "Oracle per cut: the call returns within its deadline + 2 s, returns an error unless the whole response it waits for arrived, never panics, returns only complete stored records (exact content) before the error, "
+                    "a later operation on the Conn fails without writing a byte / the Transport, Reader and Writer send nothing more on that connection and the next call succeeds on a new one."),
+        level_note=("response values are sampled (1 generated value per (api,version) per round; fixed cluster state for Conn/Client operations), cut positions are enumerated; the stall variant (k bytes, then silence until the deadline) is sampled at a few positions per frame because each costs the deadline; "
+                    "Client.Metadata is served from the Transport's cache, so a cut of the Transport's own metadata exchange may surface as an error or as the correct data of a later refresh; trusts the reference encoder and the fake broker's responses"),
+        rule=("case = (layer, operation or api, negotiated version, response that is cut, k, variant eof|rst|stall [, log layout]) resp. a Reader/Writer scenario with a fault script; "
+              "fingerprint = (operation/api, version, cut response, variant, field-at-cut from the reference encoder's field map or size-prefix/header/record-set region); non-trivial = 0 < k < len (scenarios: at least one response cut before its end). "
+              "Labels: per operation, per API, per variant and per region of the cut."),
+        assumptions=["the connection ends (EOF or RST) or goes silent after the k-th byte and never delivers anything afterwards", "one request in flight per connection (C06 covers shared connections)",
+                     "fetch at the end of the log is excluded for calls without an explicit MaxWait (the response only comes after the long poll)"],
+        units=[
+            dict(run="TestConnOps", checks=None, shards_quick=3, shards_thorough=8, timeout=1500),
+            dict(run="TestConnFetchGenerated", checks_quick=60, checks_thorough=700, shards_thorough=4, timeout=1500),
+            dict(run="TestClientOps", checks=None, shards_quick=6, shards_thorough=12, timeout=1500),
+            dict(run="TestEveryAPI", checks_quick=160, checks_thorough=3200, shards_thorough=6, timeout=1500),
+            dict(run="TestSaslRawExchange", checks=None),
+            dict(run="TestReaderScenario", checks_quick=150, checks_thorough=3000, shards_thorough=4, timeout=1500),
+            dict(run="TestWriterScenario", checks_quick=150, checks_thorough=3000, shards_thorough=4, timeout=1500),
+        ],
+    ),
+    "C15": dict(
+        pkg="props/c15", level="exploration",
+        technique="model-based property testing (rapid): generated histories of Next / Start / function exits / coordinator answers / Close against the fake coordinator, invariants over the recorded timeline and the coordinator journal",
+        level_text=("A ConsumerGroup is driven directly: rounds of Next, Start of functions that wait / return early / linger / are started late, then an ending event (function return, heartbeat error code, dropped heartbeat connection, "
+                    "coordinator-signalled rebalance, partition count change seen by the watcher, Close, Close while an error is pending), with error codes and dropped connections injected into FindCoordinator/JoinGroup/SyncGroup/OffsetFetch/LeaveGroup "
+                    "and yields at the schedule points around Start, function exit and the hand-over to Next. Invariants: Next never returns while a function of the previous generation runs; contexts end within 1 s of the ending event; "
+                    "heartbeats carry the generation's ids, stop with it and keep coming while it lives; Close sends LeaveGroup for the member id of the last successful join; a failed join is not retried before JoinGroupBackoff."),
+        level_note="time bounds: late-but-happened is inconclusive; violation only for never (4 s + intervals) or > 3 s late; the fake coordinator has no session timers; interleavings are sampled",
+        rule=("case = (cluster, intervals, rounds with function specs and ending event, setup fault script, schedule-point yields); non-trivial = >= 2 generations or a generation ended by something other than Close; "
+              "distinct by (layout, ending events, fault multiset, labels)."),
+        assumptions=["'current member id' = the id returned by the last JoinGroup exchange before Close if that exchange succeeded and the coordinator still lists the member",
+                     "error codes are injected only into APIs on which Kafka documents them"],
+        units=[dict(run="TestGenerations", checks_quick=250, checks_thorough=1500, shards_quick=4, shards_thorough=16, timeout=2400)],
     ),
 }
